@@ -55,31 +55,50 @@ Proof.
   - intros [I N]. split; [exact I|]. apply negb_true_iff. apply N.eqb_neq. exact N.
 Qed.
 
-Lemma kstep_inv s o : KInv s -> KInv (kstep true s o).
+Definition kfixed : kflags := {| f_records := true; f_keyed := true; f_drops := true; f_beside := true |}.
+
+(* recording a pair keeps the invariant and leaves the source with an association *)
+Lemma kopen_inv s src dst :
+  KInv s -> KInv (kopen true s src dst) /\ exists ps, klookup src (k_assocs (kopen true s src dst)) = Some ps.
 Proof.
-  intros [D I]. unfold kstep. rewrite D. destruct o as [[src dst]|[src dst]].
-  - (* datagram *)
-    destruct (mem_flow (src, dst) (k_flows s)) eqn:M.
-    + apply mem_flow_In in M. destruct (I src dst M) as [ps [L _]]. rewrite L. split; assumption.
-    + cbn [k_assocs k_flows k_dead].
-      destruct (klookup src (k_assocs s)) as [ps|] eqn:L.
-      * rewrite klookup_kset_same. split; [reflexivity|]. cbn [k_flows k_assocs].
-        intros s' d' [E|H].
-        -- injection E as <- <-. exists (dst :: ps). split; [apply klookup_kset_same|left; reflexivity].
-        -- destruct (I s' d' H) as [ps' [L' I']]. destruct (N.eq_dec src s') as [->|Ne].
-           ++ rewrite L in L'. injection L' as <-. exists (dst :: ps). split; [apply klookup_kset_same|right; exact I'].
-           ++ exists ps'. split; [rewrite klookup_kset_other by exact Ne; exact L'|exact I'].
-      * rewrite klookup_kset_same. split; [reflexivity|]. cbn [k_flows k_assocs].
-        intros s' d' [E|H].
-        -- injection E as <- <-. exists [dst]. split; [apply klookup_kset_same|left; reflexivity].
-        -- destruct (I s' d' H) as [ps' [L' I']]. destruct (N.eq_dec src s') as [->|Ne].
-           ++ rewrite L in L'. discriminate.
-           ++ exists ps'. split; [rewrite klookup_kset_other by exact Ne; exact L'|exact I'].
+  intros [D I]. unfold kopen.
+  destruct (mem_flow (src, dst) (k_flows s)) eqn:M.
+  - apply mem_flow_In in M. destruct (I src dst M) as [ps [L _]]. split; [split; assumption|exists ps; exact L].
+  - cbn [k_assocs k_flows k_dead].
+    destruct (klookup src (k_assocs s)) as [ps|] eqn:L.
+    + split; [|exists (dst :: ps); apply klookup_kset_same].
+      split; [reflexivity|]. cbn [k_flows k_assocs].
+      intros s' d' [E|H].
+      * injection E as <- <-. exists (dst :: ps). split; [apply klookup_kset_same|left; reflexivity].
+      * destruct (I s' d' H) as [ps' [L' I']]. destruct (N.eq_dec src s') as [->|Ne].
+        -- rewrite L in L'. injection L' as <-. exists (dst :: ps). split; [apply klookup_kset_same|right; exact I'].
+        -- exists ps'. split; [rewrite klookup_kset_other by exact Ne; exact L'|exact I'].
+    + split; [|exists [dst]; apply klookup_kset_same].
+      split; [reflexivity|]. cbn [k_flows k_assocs].
+      intros s' d' [E|H].
+      * injection E as <- <-. exists [dst]. split; [apply klookup_kset_same|left; reflexivity].
+      * destruct (I s' d' H) as [ps' [L' I']]. destruct (N.eq_dec src s') as [->|Ne].
+        -- rewrite L in L'. discriminate.
+        -- exists ps'. split; [rewrite klookup_kset_other by exact Ne; exact L'|exact I'].
+Qed.
+
+(* a datagram, sent or refused, on a recorded pair: the sink finds the association and a failed send costs the datagram only *)
+Lemma kwrite_inv sent s src dst : KInv s -> KInv (kwrite true sent (kopen true s src dst) src).
+Proof.
+  intros H. destruct (kopen_inv s src dst H) as [K [ps L]]. unfold kwrite. rewrite L.
+  rewrite orb_true_r. exact K.
+Qed.
+
+Lemma kstep_inv s o : KInv s -> KInv (kstep kfixed s o).
+Proof.
+  intros H. pose proof H as [D I]. unfold kstep. rewrite D. cbn [kfixed f_records f_keyed f_drops f_beside].
+  destruct o as [[src dst]|[src dst]|[src dst]|src|[src dst]].
+  - (* datagram *) apply kwrite_inv. exact H.
   - (* close *)
     destruct (mem_flow (src, dst) (k_flows s)) eqn:M; [|split; assumption].
     split; [reflexivity|]. cbn [k_flows k_assocs].
-    intros s' d' H. apply In_del_flow in H. destruct H as [H Ne].
-    destruct (I s' d' H) as [ps' [L' I']].
+    intros s' d' H'. apply In_del_flow in H'. destruct H' as [H' Ne].
+    destruct (I s' d' H') as [ps' [L' I']].
     destruct (N.eq_dec src s') as [->|Ns].
     + (* the same source: d' differs from dst and stays among the peers *)
       assert (Nd : d' <> dst) by (intros ->; apply Ne; reflexivity).
@@ -90,12 +109,25 @@ Proof.
     + exists ps'. split; [|exact I'].
       destruct (klookup src (k_assocs s)) as [ps|]; [|exact L'].
       destruct (del_peer dst ps); [rewrite klookup_kremove_other by exact Ns|rewrite klookup_kset_other by exact Ns]; exact L'.
+  - (* refused send *) apply kwrite_inv. exact H.
+  - (* read error: the association goes, and with it every pair of that source *)
+    destruct (klookup src (k_assocs s)) as [ps|] eqn:L; [|exact H].
+    split; [reflexivity|]. cbn [k_flows k_assocs].
+    intros s' d' H'. apply filter_In in H'. destruct H' as [H' F]. cbn [fst snd] in F.
+    destruct (I s' d' H') as [ps' [L' I']].
+    destruct (N.eq_dec src s') as [->|Ns].
+    + exfalso. rewrite L in L'. injection L' as <-. rewrite N.eqb_refl in F. cbn [andb] in F.
+      apply negb_true_iff in F.
+      assert (E : existsb (N.eqb d') ps = true) by (apply existsb_exists; exists d'; split; [exact I'|apply N.eqb_refl]).
+      rewrite E in F. discriminate.
+    + exists ps'. split; [rewrite klookup_kremove_other by exact Ns; exact L'|exact I'].
+  - (* the timer fires during the set-up: the set-up goes on *) apply kwrite_inv. exact H.
 Qed.
 
-Lemma krun_inv ops : KInv (krun true ops).
+Lemma krun_inv ops : KInv (krun kfixed ops).
 Proof.
   unfold krun.
-  assert (G : forall s, KInv s -> KInv (fold_left (kstep true) ops s)).
+  assert (G : forall s, KInv s -> KInv (fold_left (kstep kfixed) ops s)).
   { induction ops as [|o r IH]; intros s H; cbn [fold_left]; [exact H|]. apply IH. apply kstep_inv. exact H. }
   apply G. split; [reflexivity|]. intros src dst [].
 Qed.
